@@ -110,8 +110,25 @@ def _body_of(fn):
 
 
 class _Rename(ast.NodeTransformer):
-    def __init__(self, names, exprs):
+    def __init__(self, names, exprs, lambdas=None):
         self.names, self.exprs = names, exprs
+        self.lambdas = lambdas or {}
+
+    def visit_Call(self, n):
+        # a parameter bound to a lambda and applied: `stop(x)` with
+        # stop := `lambda t: e`  ->  e[t := x]
+        if isinstance(n.func, ast.Name) and n.func.id in self.lambdas and \
+                not n.keywords and not any(isinstance(a, ast.Starred)
+                                           for a in n.args):
+            lam = self.lambdas[n.func.id]
+            ps = [a.arg for a in lam.args.args]
+            if len(ps) == len(n.args) and not lam.args.vararg and \
+                    not lam.args.kwarg and not lam.args.kwonlyargs:
+                args = [self.visit(a) for a in n.args]
+                body = copy.deepcopy(lam.body)
+                return _Rename({}, dict(zip(ps, args))).visit(body)
+        self.generic_visit(n)
+        return n
 
     def _scoped(self, n):
         # names bound by a nested scope's own parameters are that scope's
@@ -212,7 +229,20 @@ def expand(call_stmt, call, fn, recv, suffix, caller_names):
     pre, exprs, names = [], {}, {}
     tail = isinstance(call_stmt, ast.Return)
     arg_names = {a.id for a in bound.values() if isinstance(a, ast.Name)}
+    lambdas = {}
     for p_ in params:
+        a = bound[p_]
+        if isinstance(a, ast.Lambda) and p_ not in stored:
+            uses = [n for st in body for n in ast.walk(st)
+                    if isinstance(n, ast.Name) and n.id == p_]
+            called = [n for st in body for n in ast.walk(st)
+                      if isinstance(n, ast.Call) and isinstance(
+                          n.func, ast.Name) and n.func.id == p_]
+            if uses and len(uses) == len(called):
+                lambdas[p_] = a
+    for p_ in params:
+        if p_ in lambdas:
+            continue
         a = bound[p_]
         simple = isinstance(a, (ast.Name, ast.Constant)) or (
             isinstance(a, ast.Attribute) and isinstance(a.value, ast.Name))
@@ -245,7 +275,7 @@ def expand(call_stmt, call, fn, recv, suffix, caller_names):
             (caller_names is None or v in caller_names) and v not in keep)
         if clash:
             names[v] = '%s__%s' % (v, suffix)
-    body = [_Rename(names, exprs).visit(st) for st in body]
+    body = [_Rename(names, exprs, lambdas).visit(st) for st in body]
 
     if isinstance(call_stmt, ast.Return):
         new = list(body)
@@ -288,6 +318,61 @@ def _established():
             if k == 'func'}
 
 
+def _imported_helpers(rel, tree, trees, est, tail):
+    """New private module-level helpers of sibling modules that this module
+    imports by name (`from . import _h`, `from .mod import _h`)."""
+    def dotted(r):
+        parts = r[:-3].split('/')
+        if parts[-1] == '__init__':
+            parts = parts[:-1]
+        return parts
+    by_name = {'.'.join(dotted(r)): r for r in trees}
+    me = dotted(rel)
+    pkg = me if rel.endswith('__init__.py') else me[:-1]
+    out = {}
+    for n in ast.walk(tree):
+        if not isinstance(n, ast.ImportFrom):
+            continue
+        base = pkg[:len(pkg) - (n.level - 1)] if n.level else []
+        mod = '.'.join(base + (n.module.split('.') if n.module else []))
+        r2 = by_name.get(mod)
+        if r2 is None or r2 == rel:
+            continue
+        for a in n.names:
+            if a.asname not in (None, a.name) or not _private(a.name):
+                continue
+            for st in trees[r2].body:
+                if isinstance(st, ast.FunctionDef) and st.name == a.name \
+                        and (r2, st.name) not in est and eligible(st, tail):
+                    out[('', a.name)] = st
+    return out
+
+
+class _SplitTuples(ast.NodeTransformer):
+    """`a, b = h(x), y` -> `a = h(x)`; `b = y` when no value mentions a target
+    assigned before it (the canonicaliser does the same later): a helper call
+    written as one element of a tuple becomes a statement-level call."""
+
+    def visit_Assign(self, n):
+        if len(n.targets) == 1 and isinstance(
+                n.targets[0], (ast.Tuple, ast.List)) and isinstance(
+                n.value, (ast.Tuple, ast.List)) and len(
+                n.targets[0].elts) == len(n.value.elts) and not any(
+                isinstance(e, ast.Starred)
+                for e in n.targets[0].elts + n.value.elts):
+            ts, vs = n.targets[0].elts, n.value.elts
+            if all(isinstance(t, ast.Name) for t in ts) and not any(
+                    isinstance(x, ast.Name) and x.id in {t.id for t in ts[:j]}
+                    for j, v in enumerate(vs) for x in ast.walk(v)):
+                out = []
+                for t, v in zip(ts, vs):
+                    a = ast.copy_location(ast.Assign(targets=[t], value=v), n)
+                    a.end_lineno = getattr(n, 'end_lineno', n.lineno)
+                    out.append(a)
+                return out
+        return n
+
+
 def inline_modules(trees):
     """trees: rel -> canonicalised ast.Module, rewritten in place.  Returns the
     number of call sites expanded."""
@@ -295,6 +380,8 @@ def inline_modules(trees):
     est = _established()
     if est is None:
         return 0
+    for tree in trees.values():
+        _SplitTuples().visit(tree)
     for rel, tree in trees.items():
         helpers = {}          # ('', name) / (class, name) -> FunctionDef
         for st in tree.body:
@@ -308,6 +395,8 @@ def inline_modules(trees):
                                 st.name, s2.name)) not in est and eligible(
                             s2, tail=True):
                         helpers[(st.name, s2.name)] = s2
+        for k, v in _imported_helpers(rel, tree, trees, est, True).items():
+            helpers.setdefault(k, v)
         if not helpers:
             continue
         shadow = {n.id for n in ast.walk(tree) if isinstance(n, ast.Name)
@@ -354,6 +443,35 @@ def inline_modules(trees):
                                 st.targets) == 1 and isinstance(
                                 st.value, ast.Call):
                             call = st.value
+                        if call is not None and target_of(
+                                call, cls, selfn)[0] is None and isinstance(
+                                call.func, (ast.Name, ast.Attribute)):
+                            # `x = f(h(..), ..)`: the helper call becomes a
+                            # statement of its own in front (the arguments
+                            # before it are plain names or constants, so the
+                            # order of evaluation is kept)
+                            for ai, a in enumerate(call.args):
+                                if not isinstance(a, (ast.Name, ast.Constant,
+                                                      ast.Call)):
+                                    break
+                                if isinstance(a, ast.Call):
+                                    h2, _r2 = target_of(a, cls, selfn)
+                                    if h2 is not None and h2 is not fn and \
+                                            eligible(h2) and _expr_form(
+                                                h2) is None:
+                                        counter[0] += 1
+                                        tmp = '_h%d' % counter[0]
+                                        pre_ = ast.copy_location(ast.Assign(
+                                            targets=[ast.Name(
+                                                id=tmp, ctx=ast.Store())],
+                                            value=a), st)
+                                        ast.fix_missing_locations(pre_)
+                                        call.args[ai] = ast.copy_location(
+                                            ast.Name(id=tmp, ctx=ast.Load()),
+                                            a)
+                                        stmts.insert(i, pre_)
+                                        st, call = pre_, a
+                                    break
                         if call is not None:
                             h, recv = target_of(call, cls, selfn)
                             if h is not None and h is not fn and (
@@ -477,16 +595,24 @@ def _renumber(tree):
 
 
 # -- predicate helpers: calls inside expressions ---------------------------------
-def _expr_form(fn):
+def _expr_form(fn, keep_lead=False):
     """The helper's result as one expression over its parameters, when its
     body is `x = e` bindings, `if c: return e` guards and a final `return e`;
     None otherwise."""
-    body = _body_of(fn)
+    body = [st for st in _body_of(fn)
+            if not isinstance(st, (ast.Import, ast.ImportFrom))]
     if not body or not isinstance(body[-1], ast.Return) or \
             body[-1].value is None:
         return None
     expr = copy.deepcopy(body[-1].value)
-    for st in reversed(body[:-1]):
+    # leading plain assignments can stay statements in front of an `if`
+    lead = 0
+    while keep_lead and lead < len(body) - 1 and isinstance(
+            body[lead], ast.Assign) and len(body[lead].targets) == 1 and \
+            isinstance(body[lead].targets[0], ast.Name):
+        lead += 1
+    pre = [copy.deepcopy(st) for st in body[:lead]]
+    for st in reversed(body[lead:-1]):
         if isinstance(st, ast.If) and not st.orelse and len(
                 st.body) == 1 and isinstance(st.body[0], ast.Return) and \
                 st.body[0].value is not None:
@@ -502,7 +628,7 @@ def _expr_form(fn):
             expr = _Rename({}, {st.targets[0].id: st.value}).visit(expr)
         else:
             return None
-    return expr
+    return (expr, pre) if keep_lead else expr
 
 
 def _bool_simplify(e):
@@ -559,17 +685,25 @@ def inline_predicates(trees, est):
                             s2.name) and (rel, '%s.%s' % (
                                 st.name, s2.name)) not in est and eligible(s2):
                         helpers[(st.name, s2.name)] = s2
-        forms = {}
+        for k, v in _imported_helpers(rel, tree, trees, est, False).items():
+            helpers.setdefault(k, v)
+        forms, forms_pre = {}, {}
         for k, fn in helpers.items():
             e = _expr_form(fn)
             if e is not None:
                 forms[k] = (fn, e)
+                ep = _expr_form(fn, keep_lead=True)
+                if ep is not None:
+                    forms_pre[k] = ep
         if not forms:
             continue
 
         class T(ast.NodeTransformer):
-            def __init__(self, cls, selfn):
+            def __init__(self, cls, selfn, stmt_mode=False):
                 self.cls, self.selfn, self.n = cls, selfn, 0
+                self.imports = []
+                self.stmt_mode, self.pre = stmt_mode, []
+                self.boolean = True
 
             def visit_Call(self, call):
                 self.generic_visit(call)
@@ -582,6 +716,13 @@ def inline_predicates(trees, est):
                         self.cls, f.attr) in forms and f.value.id in (
                         self.selfn, self.cls):
                     key, recv = (self.cls, f.attr), f.value
+                elif isinstance(f, ast.Attribute) and isinstance(
+                        f.value, (ast.Name, ast.Subscript, ast.Attribute)):
+                    # `<object>._pred(..)`: a new private method defined in
+                    # exactly one class of the module
+                    ks = [k for k in forms if k[1] == f.attr and k[0]]
+                    if len(ks) == 1:
+                        key, recv = ks[0], f.value
                 if key is None or call.keywords or any(
                         isinstance(a, ast.Starred) for a in call.args):
                     return call
@@ -597,8 +738,23 @@ def inline_predicates(trees, est):
                             ast.Subscript)) for a in args):
                     return call
                 self.n += 1
+                self.imports += [copy.deepcopy(st) for st in _body_of(fn)
+                                 if isinstance(st, (ast.Import,
+                                                    ast.ImportFrom))]
+                if self.stmt_mode and key in forms_pre and forms_pre[key][1]:
+                    expr, pre = forms_pre[key]
+                    # the helper's leading locals get call-site unique names
+                    ren = {st.targets[0].id: '%s__p%d' % (
+                        st.targets[0].id, id(call) % 9973) for st in pre}
+                    rn = _Rename(ren, dict(zip(params, args)))
+                    self.pre += [rn.visit(copy.deepcopy(st)) for st in pre]
+                    new = rn.visit(copy.deepcopy(expr))
+                    return ast.copy_location(
+                        _flatten_bool(_bool_simplify(new)), call)
                 new = _Rename({}, dict(zip(params, args))).visit(
                     copy.deepcopy(expr))
+                if not self.boolean:
+                    return ast.copy_location(new, call)
                 return ast.copy_location(
                     _flatten_bool(_bool_simplify(new)), call)
 
@@ -608,6 +764,9 @@ def inline_predicates(trees, est):
                     yield n, 'test'
                 elif isinstance(n, ast.comprehension):
                     yield n, 'ifs'
+                    yield n, 'iter'
+                elif isinstance(n, ast.For):
+                    yield n, 'iter'
 
         for st in tree.body:
             items = [(st, None)] if isinstance(st, ast.FunctionDef) else [
@@ -617,12 +776,46 @@ def inline_predicates(trees, est):
             for fn, cls in items:
                 selfn = fn.args.args[0].arg if (cls and fn.args.args) else None
                 t = T(cls, selfn)
+                # `if` statements first: the predicate's leading assignments
+                # become statements in front of the `if`
+                for holder in ast.walk(fn):
+                    for fld in ('body', 'orelse', 'finalbody'):
+                        stmts = getattr(holder, fld, None)
+                        if not (isinstance(stmts, list) and stmts and
+                                isinstance(stmts[0], ast.stmt)):
+                            continue
+                        i = 0
+                        while i < len(stmts):
+                            st = stmts[i]
+                            if isinstance(st, ast.If):
+                                ts = T(cls, selfn, stmt_mode=True)
+                                st.test = _flatten_bool(ts.visit(st.test))
+                                if ts.n:
+                                    for p_ in ts.pre:
+                                        ast.copy_location(p_, st)
+                                    stmts[i:i] = ts.pre
+                                    i += len(ts.pre)
+                                    t.n += ts.n
+                                    t.imports += ts.imports
+                            i += 1
                 for node, fld in tests_of(fn):
                     if fld == 'test':
                         node.test = _flatten_bool(t.visit(node.test))
+                    elif fld == 'iter':
+                        # the table a loop runs over, returned by a helper
+                        t.boolean = False
+                        node.iter = t.visit(node.iter)
+                        t.boolean = True
                     else:
                         node.ifs = [t.visit(x) for x in node.ifs]
                 n_done += t.n
+                if t.imports:
+                    # what the predicates imported locally is imported by the
+                    # function that now contains their text
+                    doc = 1 if (fn.body and isinstance(
+                        fn.body[0], ast.Expr) and isinstance(
+                        fn.body[0].value, ast.Constant)) else 0
+                    fn.body[doc:doc] = t.imports
     return n_done
 
 
